@@ -43,8 +43,12 @@ def translate(ctx):
         info['changed'] = [C.write_if_changed(os.path.join(C.COQ, 'Generated', 'Mangle.v'), ztext),
                            C.write_if_changed(os.path.join(C.COQ, 'Generated', 'MangleR.v'), rtext)]
     else:
-        info['note'] = ('source shape not recognised; the previous Generated/Mangle.v and MangleR.v are kept and the '
-                        'correspondence run alone ties model to code')
+        # do not keep whatever an earlier run (possibly of another tree) left behind: fall back to the baseline text
+        from translate import c12_baseline as B
+        info['changed'] = [C.write_if_changed(os.path.join(C.COQ, 'Generated', 'Mangle.v'), B.MANGLE_V),
+                           C.write_if_changed(os.path.join(C.COQ, 'Generated', 'MangleR.v'), B.MANGLER_V)]
+        info['note'] = ('source shape not recognised; Generated/Mangle.v and MangleR.v are set to the baseline (reference '
+                        'source) text and the correspondence run alone ties model to code')
     return {'Mangle': info}
 
 
@@ -53,6 +57,7 @@ SIG_NAN = 'C12:membership:dot-product-outside-[-1,1]:arccos=NaN:impl=outside:pro
 SIG_IDX = 'C12:set_use_caps:index_list[i]-lookup:property'
 SIG_NEGSUM = 'C12:set_use_caps:cm-sum-test-without-abs:distinct-caps-dropped:property'
 SIG_RAW1 = 'C12:route=fits_raw:single-cap-slot-table:impl=IndexError:property'
+SIG_PLY0 = 'C12:route=ply:zero-cap-polygon:impl=AssertionError:property'
 
 
 # ---------------------------------------------------------------- literals
@@ -241,7 +246,7 @@ def gen_window_job(rng, allcaps, onecap, empty=False, nopoly=False):
         if t > 0.3:
             p['cm'][c] = tiny_cm(rng)
     if empty:
-        polys.insert(rng.randint(0, len(polys)), {'x': [], 'cm': [], 'use_caps': 0, 'id': -1, 'pixel': -1, 'weight': 1.0,
+        polys.insert(rng.randint(0, len(polys)), {'x': [], 'cm': [], 'use_caps': 0, 'id': 99, 'pixel': -1, 'weight': 1.0,
                                                    'str': 4.0 * math.pi})
         npoly += 1
     pts, kinds = [], []
@@ -276,8 +281,8 @@ def gen_window_job(rng, allcaps, onecap, empty=False, nopoly=False):
     if nopoly:
         routes = ['kwargs']
     elif empty:
-        # no copy()/add_caps() (they need cap arrays) and no .ply (its reader asserts >= 1 cap per polygon)
-        routes = ['kwargs', 'fits_raw', 'fits_conv'] + (['kwargs_default', 'balkans'] if allcaps else [])
+        # no copy()/add_caps() (they need cap arrays); a whole-sky polygon in a Mangle text file is "polygon N ( 0 caps, ...):"
+        routes = ['kwargs', 'fits_raw', 'fits_conv'] + (['kwargs_default', 'balkans', 'ply'] if allcaps else ['ply_assign'])
     else:
         routes = ['kwargs', 'copy', 'add_caps', 'fits_raw', 'fits_conv']
         routes += ['kwargs_default', 'ply', 'balkans'] if allcaps else ['ply_assign']
@@ -663,8 +668,20 @@ def correspond(ctx, proof_ok=True):
                     rr = {'routes': {k: (v.get('win_cart') if isinstance(v, dict) else v) for k, v in rr['routes'].items()}}
                 samples.append({'job': {k: v for k, v in j.items() if k not in ('pad',)}, 'impl': rr})
                 break
+    by_form = {'cartesian (n x 3 unit vectors)': 0, 'RA/Dec (n x 2 degrees, through angles_to_x(latitude=True))': 0}
+    by_route = {}
+    for (ji, info, t) in terms:
+        if 'keep' not in info:
+            continue
+        nk = len(info['keep'])
+        key = 'RA/Dec (n x 2 degrees, through angles_to_x(latitude=True))' if info.get('mode') == 'radec' else 'cartesian (n x 3 unit vectors)'
+        by_form[key] += nk * (len(info['routes']) if 'routes' in info else 1)
+        for rt in info.get('routes', ['direct call']):
+            by_route[rt] = by_route.get(rt, 0) + nk
     ctx.coverage.update({
         'evaluations': evaluations,
+        'membership_answers_by_input_form': by_form,
+        'membership_answers_by_route': by_route,
         'distinct_nontrivial': len(set(t for _, _, t in terms)),
         'rule': 'one evaluation = one (point, cap|polygon|polygon list, route) membership answer of the implementation, or one '
                 'set_use_caps / balkans assembly result, compared inside Coq with the algorithmic model and with the '
@@ -752,6 +769,8 @@ def correspond(ctx, proof_ok=True):
             e = (exp if what == 'is_in_cap' else (rr if 'err' in rr else (rr.get('win_' + info['mode']) if what == 'is_in_window' else rr['inpoly'][info['poly']])))
             if route in ('fits_raw', 'fits1_raw') and e.get('err') == 'IndexError' and max(len(p['cm']) for p in j['polys']) == 1:
                 sig = SIG_RAW1
+            elif route in ('ply', 'ply_assign') and e.get('err') == 'AssertionError' and any(len(p['cm']) == 0 for p in j['polys']):
+                sig = SIG_PLY0
             else:
                 sig = 'C12:%s:route=%s:impl=%s:%s' % (what, route, e.get('err'), 'property' if found else 'model')
             summary = '%s raised %s (%s) on route %s' % (what, e.get('err'), e.get('msg', ''), route)
@@ -776,6 +795,9 @@ def correspond(ctx, proof_ok=True):
 
     for ji, sig, summary, extra, found in direct:
         j, r = jobs[ji], results[ji]
+        if sig.startswith('C12:route=ply') and sig.endswith('impl=AssertionError') and j['f'] == 'window' and \
+                any(len(p['cm']) == 0 for p in j['polys']):
+            sig = SIG_PLY0
         if sig.startswith('C12:route=fits') and sig.endswith('impl=IndexError') and j['f'] == 'window' and \
                 max(len(p['cm']) for p in j['polys']) == 1 and 'raw' in sig:
             sig = SIG_RAW1
